@@ -20,7 +20,16 @@ RULE = ("fixed x mobile sizes 1..40 x 1..25 (a third of the cases biased to <= 6
         "index out of range on either side. Call sequences: half of the calculators (every restraint kind, hence every path) "
         "are evaluated 2-5 times on the SAME object: independent redraws, the atoms of an earlier configuration with their "
         "positions permuted (nearest-neighbour labels change), rigid motion + noise, and exact returns to an earlier "
-        "configuration; every call is one K case and one S evaluation. A case is non-trivial when it is distinct and has more than one atom on some "
+        "configuration; every call is one K case and one S evaluation. Coincidence stream: decimal (non-dyadic) coordinates up "
+        "to 50 nm from the origin, the mobile configuration contains exact copies of all (perfect overlap) or of a subset of "
+        "the fixed atoms, restraints matched to the copies or random, all restraint kinds: S demands value >= 0 with no "
+        "tolerance on the sign and exactly 0.0 when every term of the definition is exactly 0; K accepts 0 <= x <= 2^-60 "
+        "where the model gives exactly 0. Rigid motions in S: rotation + |t| <= 2 x extent, and rotation + |t| log-uniform in "
+        "[1, 1e4] nm, capped per case at the largest |t| for which the a-priori rounding bound of the unchanged algorithm, "
+        "8 eps (|t| + extent) sum(d) / sum(d^2), stays below 1e-10 = a tenth of the 1e-9 relative tolerance (measured on the "
+        "unchanged tree: worst relative change 1.5e-11 over 14 500 capped motions, 26% of them with |t| >= 1000 nm; uncapped "
+        "1.0e-10 at |t| = 1e4 and 1.3e-9 at 1e5 over 3 000 cases); rows with a relative gap < 1e-6 between the two nearest atoms "
+        "are excluded from the far motion. A case is non-trivial when it is distinct and has more than one atom on some "
         "side; the histogram records path taken, restraint kind, k, ties.")
 
 EPS = 2.0 ** -53
@@ -530,6 +539,8 @@ def _c(m1, m2c, restr, m2e, rkind, more=None):
 
 _CONF_A = [[0, 0, 1], [10, 0, 1], [30, 0, 0]]
 _CONF_B = [[0, 0, 1], [30, 0, 0], [10, 0, 2]]
+_FAR_FIXED = [[4000.1, -2499.8, 3000.3], [4001.1, -2500.4, 3000.7], [4002.3, -2499.1, 2999.4]]
+_FAR_MOBILE = [[4000.13, -2499.84, 3000.35], [4001.07, -2500.43, 3000.66], [4002.33, -2499.06, 2999.45]]
 
 
 CORPUS = [
@@ -546,6 +557,18 @@ CORPUS = [
     _c([[0, 0, 0], [10, 0, 0]], _CONF_A, [(0, 0)], _CONF_A, "partial", more=[_CONF_B, _CONF_A]),
     _c([[0, 0, 0], [10, 0, 0]], _CONF_B, [], _CONF_A, "empty", more=[_CONF_B, _CONF_A]),
     _c([[0, 0, 0], [10, 0, 0]], _CONF_B, [(0, 0), (1, 1)], _CONF_A, "complete", more=[_CONF_B, _CONF_A]),
+    # mobile atoms sitting EXACTLY on the fixed ones, decimal coordinates away from the origin: every term is exactly 0,
+    # the value must be 0.0 (a |a|^2+|b|^2-2a.b expansion of the squared distance gives -4.5e-13 here)
+    _c([[13.1, -9.34, 32.16]], [[9.61, -8.07, 31.67]], [], [[13.1, -9.34, 32.16]], "empty"),
+    _c([[13.92, -7.34, 30.01], [13.41, -4.88, 32.07]], [[14.49, -7.36, 28.2], [12.66, -4.73, 33.92]], [(0, 0)],
+       [[13.92, -7.34, 30.01], [13.41, -4.88, 32.07]], "partial"),
+    _c([[13.94, -5.55, 30.03], [15.07, -7.23, 30.62]], [[15.6, -5.67, 29.77], [16.15, -7.42, 31.79]], [(0, 0), (1, 1)],
+       [[13.94, -5.55, 30.03], [15.07, -7.23, 30.62]], "complete"),
+    # a well-overlapped pair 5 600 nm from the origin (inter-atomic distances 0.07 nm)
+    _c(_FAR_FIXED, [[4000.5, -2500.5, 3000.5], [4001.5, -2499.5, 3000.0], [4002.0, -2501.0, 3001.0]], [(0, 0)],
+       _FAR_MOBILE, "partial"),
+    _c(_FAR_FIXED, [[4000.5, -2500.5, 3000.5], [4001.5, -2499.5, 3000.0], [4002.0, -2501.0, 3001.0]], [],
+       _FAR_MOBILE, "empty"),
     # one atom on each side
     _c([[0.5, 0.25, 0]], [[0, 0, 0]], [(0, 0)], [[1, 1, 1]], "complete"),
     _c([[0.5, 0.25, 0]], [[0, 0, 0]], [], [[1, 1, 1]], "empty"),
@@ -563,8 +586,14 @@ def corpus(ctx):
             report(ctx, case, bad)
 
 
+def dyadic_case(case):
+    """every coordinate is a multiple of 1/8 of magnitude <= 64: binary64 arithmetic of the model and of numpy is exact"""
+    return all(abs(x) <= 64 and float(x * 8).is_integer()
+               for conf in [case["m1"], case["m2c"]] + seq_of(case) for p in conf for x in p)
+
+
 def coq_case(case, out, conf=None):
-    exact = "true" if case["stream"] in ("dyadic", "corpus") else "false"
+    exact = "true" if case["stream"] == "dyadic" or (case["stream"] == "corpus" and dyadic_case(case)) else "false"
     obs = {"val": lambda: "(ObsVal %s)" % fl(out[1]), "errmake": lambda: "ObsErrMake",
            "errcall": lambda: "ObsErrCall", "errvalue": lambda: "ObsErrValue"}[out[0]]()
 
